@@ -9,10 +9,10 @@ V = Path(__file__).resolve().parent.parent
 base = sys.argv[1]
 os.makedirs(base, exist_ok=True)
 RUN = r'''#!/bin/bash
-# usage: BASE/run_tests.sh <worktree>   -- runs the repository's pinned test suite against the worktree's code
+# usage: @BASE@/run_tests.sh <worktree>   -- runs the repository's pinned test suite against the worktree's code
 # and checks that every test of the stable baseline (140 tests) still passes. Exit 0 = baseline intact.
 wt=$1
-out=$(mktemp BASE/junit.XXXXXX.xml)
+out=$(mktemp @BASE@/junit.XXXXXX.xml)
 cd "$wt" && PYTHONPATH="$wt" /venv/bin/python -m pytest -ra -q -p no:cacheprovider --timeout=900 --continue-on-collection-errors --junitxml=$out > "$out.log" 2>&1
 PYTHONPATH="$wt" /venv/bin/python - "$out" <<'PY'
 import json, sys, xml.etree.ElementTree as ET
@@ -29,7 +29,7 @@ PY
 rc=$?
 rm -f "$out" "$out.log"
 exit $rc
-'''.replace("BASE", base)
+'''.replace("@BASE@", base)
 Path(base, "run_tests.sh").write_text(RUN)
 os.chmod(Path(base, "run_tests.sh"), 0o755)
 TMPL = '''You are a careful software engineer helping to evaluate a verification effort for the Python library desy-ml/cheetah (a PyTorch-based differentiable particle-accelerator beam dynamics simulator: linear transfer maps, Bmad-X tracking, space-charge kicks, lattice converters). You work ONLY inside your own scratch git worktree of the repository: {wt} (a detached checkout; import its code with `PYTHONPATH={wt} /venv/bin/python`; never touch /repo or /verif, never read anything under /verif).
